@@ -130,11 +130,20 @@ def rand_stem(rng, it):
 def gen_case(rng, it):
     nrow = int(rng.integers(1, 51))
     ncol = int(rng.integers(1, 9))
+    if it % 40 == 11:
+        # row counts with four and more digits
+        nrow = [1000, 1001, 999, 4096, 10000, 12345, 65536, 100000][(it // 40) % 8]
+        ncol = int(rng.integers(1, 3))
+    elif it % 40 == 31:
+        ncol = [1000, 1024, 1200][(it // 40) % 3]
+        nrow = 2
     used = set()
     cols = []
     for j in range(ncol):
-        name = rand_name(rng, used)
+        name = rand_name(rng, used) if ncol < 500 else f"c{j}"
         kind = ["float", "int", "text"][int(rng.integers(0, 3))]
+        if nrow >= 999 or ncol >= 500:
+            kind = ["float", "int"][j % 2]
         if kind == "float":
             dec = int(rng.integers(-6, 7))
             v = (rng.normal(size=nrow) * 10.0 ** dec).tolist()
